@@ -138,7 +138,7 @@ def iter_tests(spec):
         if m.get('fault') or m.get('fault_test_suite') or m.get('bad_suite'):
             continue
 
-        def walk(node, layer, level):
+        def walk(node, layer, level, flat=False):
             if node.get('layer') is not None:
                 layer = node['layer']
             if node.get('level') is not None:
@@ -146,10 +146,16 @@ def iter_tests(spec):
             if node['t'] == 'class':
                 for ts in sorted(node['tests'], key=lambda t: t['name']):
                     tid = '%s.%s.%s' % (m['name'], node['name'], ts['name'])
-                    yield tid, ts, layer, level, m, node
+                    # in a flat suite a test instance may declare for
+                    # itself: nearest of all
+                    il = ts.get('ilayer') if flat else None
+                    iv = ts.get('ilevel') if flat else None
+                    yield (tid, ts, layer if il is None else il,
+                           level if iv is None else iv, m, node)
             elif node['t'] == 'suite':
                 for ch in node.get('ch', []):
-                    yield from walk(ch, layer, level)
+                    yield from walk(ch, layer, level,
+                                    bool(node.get('flat')))
             # 'doctest' / 'docfile' nodes are not modelled here
         if m.get('use_test_suite', True):
             yield from walk(m['suite'], None, 1)
